@@ -807,6 +807,86 @@ def run_built(ctx, collect):
         ctx.count("built assemblies (subclassed / base-class shape stacks)")
 
 
+def run_state_carry(ctx, collect):
+    """ONE changer instance reused on the same assembly for successive performPrescribedAxialExpansion calls that name
+    DIFFERENT component subsets, followed by the exact inverse sequence; compared with a fresh changer per call"""
+    fx = fixtures()
+    # (the control assemblies' 1 cm blocks go negative under per-component growth: known finding, exercised elsewhere)
+    pool = [x for x in fx["assems"] if "control" not in x.getType()]
+    with common.quiet():
+        pool += [build_assembly(k, [16.0] * (len(k) + 1)) for k in (["fuel", "holedslab", "slab"], ["customfuel", "fuel", "pinslab61"])]
+    for _ in range(ctx.pick(10, 120)):
+        a0 = ctx.rng.choice(pool)
+        a, a2 = copy.deepcopy(a0), copy.deepcopy(a0)
+        chg, snapshot, iterSolid = make_changer()
+        H0, top0 = a.getTotalHeight(), float(a[-1].p.ztop)
+        budget = [0, 0]
+        names = sorted({c.name for b in a[:-1] for c in solids(b)})
+        groups = []
+        for _g in range(ctx.rng.randint(2, 3)):
+            grp = set(ctx.rng.sample(names, ctx.rng.randint(1, max(1, len(names) - 1))))
+            groups.append((grp, 1.0 + ctx.rng.choice([-6, -3, 2, 3, 4]) / 256.0))   # total growth stays below the dummy height
+        seq = groups + [(g, 1.0 / p) for g, p in reversed(groups)]
+        start = snapshot(a)
+        ok = True
+        for k, (grp, p) in enumerate(seq):
+            idx = [(ib, ic, c) for ib, b in enumerate(a[:-1]) for ic, c in enumerate(solids(b)) if c.name in grp]
+            comps = [c for _, _, c in idx]
+            listed = {(ib, ic) for ib, ic, _ in idx}
+            case = {"assembly": a0.getType(), "mode": "reused-changer-subsets", "step": k, "listed": sorted(grp), "factor": p}
+            r = one_step(ctx, collect, a, a0, chg, snapshot, iterSolid, case, H0, top0, budget, "prescribed",
+                         (comps, [p] * len(comps)))
+            if r is None:
+                ok = False
+                break
+            pre, post = r
+            for ib in range(len(pre) - 1):
+                for ic, c in enumerate(pre[ib]["comps"]):
+                    want = p if (ib, ic) in listed else 1.0
+                    if c["g"] != want:
+                        ctx.fail("prescribed-factors-only-listed-components", "a prescribed expansion applies the given factor "
+                                 "to the listed components and 1.0 to every other one (nothing carried over from earlier calls)",
+                                 dict(case, block=ib, comp=c["name"]), observed=c["g"], expected=want)
+            # the same call with a FRESH changer on the twin assembly
+            fresh, _s, _i = make_changer()
+            comps2 = [c for b in a2[:-1] for c in solids(b) if c.name in grp]
+            try:
+                with common.quiet():
+                    fresh.performPrescribedAxialExpansion(a2, comps2, [p] * len(comps2), setFuel=True)
+            except Exception as e:  # noqa
+                ctx.fail("expansion-raises", "a physical expansion of an assembly with a dummy block succeeds", case, observed=repr(e)[:200])
+                ok = False
+                break
+            twin = snapshot(a2)
+            for ib, (x, y) in enumerate(zip(post, twin)):
+                same = fclose(x["h"], y["h"], 1e-13) and fclose(x["zt"], y["zt"], 1e-13) and all(
+                    fclose(cx["nd"], cy["nd"], 1e-13) and fclose(cx["mass"], cy["mass"], 1e-12) for cx, cy in zip(x["comps"], y["comps"]))
+                if not same:
+                    ctx.fail("reused-changer-equals-fresh-changer", "a changer that was used before gives the same result as a "
+                             "fresh one", dict(case, block=ib), observed=[x["h"], x["zt"]], expected=[y["h"], y["zt"]])
+            ctx.case(("carry", a0.getType(), k, tuple(sorted(grp)), p), nontrivial=True)
+        if ok:
+            end = snapshot(a)
+            al = chg.pre
+            case = {"assembly": a0.getType(), "mode": "reused-changer-subsets", "sequence": [[sorted(g), p] for g, p in seq]}
+            for ib in range(len(start) - 1):
+                for cs, ce in zip(start[ib]["comps"], end[ib]["comps"]):
+                    if not fclose(cs["nd"], ce["nd"], 1e-11):
+                        ctx.fail("sequence-inverse-restores-densities", "a sequence followed by its exact inverse restores the "
+                                 "number densities", dict(case, block=ib, comp=cs["name"]), observed=ce["nd"], expected=cs["nd"])
+                t = al[ib]["targets"]
+                if t and all(aligned(al, jb, al[jb]["targets"][0]) for jb in range(ib + 1) if al[jb]["targets"]):
+                    if not fclose(start[ib]["h"], end[ib]["h"], 1e-10) or not fclose(start[ib]["zt"], end[ib]["zt"], 1e-10):
+                        ctx.fail("sequence-inverse-restores-heights", "a sequence followed by its exact inverse restores the "
+                                 "heights (blocks whose targets sit on the block below)", dict(case, block=ib),
+                                 observed=[end[ib]["h"], end[ib]["zt"]], expected=[start[ib]["h"], start[ib]["zt"]])
+                    tm0, tm1 = start[ib]["comps"][t[0]]["mass"], end[ib]["comps"][t[0]]["mass"]
+                    if not fclose(tm0, tm1, 1e-10):
+                        ctx.fail("sequence-inverse-restores-masses", "... and the target masses", dict(case, block=ib),
+                                 observed=tm1, expected=tm0)
+        ctx.count("reused-changer subset sequences")
+
+
 def flag_int(f):
     return int.from_bytes(f.to_bytes(), "big")
 
@@ -983,6 +1063,7 @@ def run(ctx):
     run_targets(ctx)
     run_link_pairs(ctx)
     run_built(ctx, collect)
+    run_state_carry(ctx, collect)
     run_rejects(ctx, collect)
     run_zero_celsius(ctx, collect)
     run_small_steps(ctx, collect)
@@ -995,8 +1076,9 @@ def run(ctx):
                 "0.0 C (25-0-100-25, 0-50-0, 25-0-0-300-25) on every assembly type; 10-50 very small steps (L1/L0 = 1 +- "
                 "a few 1e-6, isothermal +0.25 C) with every clause after every step and an accumulated-drift clause; every "
                 "case is non-trivial (heights change); assemblies built through HexAssembly/HexBlock/component constructors "
-                "with HoledHexagon / HexHoledCircle targets above Hexagon / Circle components (and the reverse, and same-class "
-                "controls) under differential expansion, with linkage mutuality/symmetry clauses; plus refused calls (non-positive factor, growth the dummy block "
+                "(incl. a solid Custom-material fuel target) with HoledHexagon / HexHoledCircle targets above Hexagon / Circle components (and the reverse, and same-class "
+                "controls) under differential expansion, with linkage mutuality/symmetry clauses; one changer reused for successive "
+                "calls naming different component subsets, then the exact inverse, against a fresh changer per call; plus refused calls (non-positive factor, growth the dummy block "
                 "cannot absorb, negative height of a thin block).")
 
 
